@@ -366,7 +366,7 @@ def reachDFS {σ} (C : CacheI σ) (adjf : Nat → List Nat) (fixed : Bool) (fuel
   | some r => some ((C.get cache c).1, r)
   | none => dfsLoop C adjf fixed fuel { cache := (C.get cache c).1, root := newRootCursor adjf c, stack := [] }
 
-def dfsFuel (n : Nat) : Nat := (n + 2) * (n + 2)
+def dfsFuel (n : Nat) : Nat := 2 * (n + 1) * (n + 1) + 1
 
 /-! ### ReachabilityCache -/
 
